@@ -98,6 +98,22 @@ var BlockMutations = []BlockMutation{
 		}
 		return true
 	}},
+	// the hash (and with it the signature) covers the magnitude of the amount only
+	{"amount-negated", false, func(w *World, b *nom.AccountBlock) bool {
+		if b.Amount == nil || b.Amount.Sign() == 0 {
+			return false
+		}
+		b.Amount = new(big.Int).Neg(b.Amount)
+		return true
+	}},
+	{"negative-amount-without-token", true, func(w *World, b *nom.AccountBlock) bool {
+		if !b.IsSendBlock() {
+			return false
+		}
+		b.Amount = big.NewInt(-int64(1 + w.R.T.Choose(1000000)))
+		b.TokenStandard = types.ZeroTokenStandard
+		return true
+	}},
 	{"token-standard", true, func(w *World, b *nom.AccountBlock) bool {
 		o := b.TokenStandard
 		switch w.R.T.Choose(3) {
